@@ -76,7 +76,7 @@ class UnratedTrainingItemsCandidateSelector(TrainingCandidateSelectorBase):
 
         if query.user_items is not None:
             mask = np.full(len(self.items_), True, np.bool_)
-            qis = query.user_items.numbers(vocabulary=self.items_)
+            qis = query.user_items.numbers(vocabulary=self.items_, missing="negative")
             qis = qis[qis >= 0]
             mask[qis] = False
             items = items[mask]
